@@ -21,6 +21,8 @@ class C20(Check):
             {"n": 1, "ops": [("map", True, 1), ("map", False, 2), ("unmap", 0), ("map", False, 3)]},
             {"n": 3, "ops": [("map", True, 4096), ("map", False, 6144), ("map", True, 8192), ("unmap", 0), ("map", True, 12288)]},
             {"n": 0, "ops": [("map", True, 1), ("map", False, 1)]},
+            {"n": 3, "ops": [("map", False, 0), ("map", False, 0x1000), ("unmap", 0), ("map", False, 0)]},
+            {"n": 2, "ops": [("map", True, 0), ("map", True, 0), ("map", True, 0), ("map", False, 0)]},
         ]
 
     def gen_cases(self):
@@ -32,7 +34,7 @@ class C20(Check):
             for n in range(1, 5):
                 for L in range(1, 6):
                     for seq in itertools.product(alphabet, repeat=L):
-                        ops = [(o[0], o[1], 0x1000 * (i + 1)) if o[0] == "map" else o for i, o in enumerate(seq)]
+                        ops = [(o[0], o[1], 0x1000 * i) if o[0] == "map" else o for i, o in enumerate(seq)]
                         out.append({"n": n, "ops": ops})
         for _ in range(400 if self.tier == "quick" else 3000):
             n = rng.choice([1, 2, 2, 3, 3, 4, 4, 4])
@@ -42,7 +44,8 @@ class C20(Check):
                     ops.append(("unmap", rng.randrange(live + (rng.random() < 0.1))))
                     live = max(0, live - 1)
                 else:
-                    ops.append(("map", rng.random() < 0.5, 0x1000 * (i + 1) + rng.randrange(16)))
+                    # logical address 0 is valid (and falsy in Python): keep it frequent
+                    ops.append(("map", rng.random() < 0.5, rng.choice([0, 0, 0x1000 * (i + 1) + rng.randrange(16)])))
                     live += 1
             out.append({"n": n, "ops": ops})
         return out
@@ -138,7 +141,7 @@ class C20(Check):
         for n in range(1, 5):
             for L in range(1, 5):
                 for seq in itertools.product(alphabet, repeat=L):
-                    out.append({"n": n, "ops": [(o[0], o[1], 0x1000 * (i + 1)) if o[0] == "map" else o for i, o in enumerate(seq)]})
+                    out.append({"n": n, "ops": [(o[0], o[1], 0x1000 * i) if o[0] == "map" else o for i, o in enumerate(seq)]})
         return out
 
     def rule(self):
